@@ -25,7 +25,7 @@ def obs(c, passes_aside=False):
 def accepted_ops(c):
     ops = []
     for a, v in c.actions:
-        if a == 'add_jumper': ops.append(('add', int(v['bib'])))
+        if a == 'add_jumper': ops.append(('add', int(v.get('bib', 0))))          # entered without a bib: the default bib '0'
         elif a == 'set_bar_height': ops.append(('bar', int(round(v * 100))))
         else: ops.append(('trial', int(v), {'cleared': 'o', 'failed': 'x', 'passed': 'p', 'retired': 'r'}[a]))
     return ops
@@ -86,11 +86,12 @@ def run(ctx):
         else:
             fl = (i % 6 == 1)                         # bar heights as Python floats, from anywhere between 1.00 and 2.60
             c = H.new_comp(athlib, float_heights=fl); nb = rng.randint(2, 4); h = rng.randint(100, 260) if fl else 100
-            for b in range(1, nb + 1): H.apply_op(athlib, c, ('add', b))
+            first = 0 if rng.random() < 0.15 else 1          # one athlete entered with no arguments at all (default bib '0'; logged with empty keywords)
+            for b in range(first, first + nb): H.apply_op(athlib, c, ('add', b))
             for k in range(rng.randint(3, 50)):
                 x = rng.random()
                 if x < 0.2: op = ('bar', h + rng.choice([3, 2, 5, 1, 1, 0, -2]))
-                else: op = ('trial', rng.randint(1, nb), rng.choice('oxxxpr'))
+                else: op = ('trial', rng.randint(first, first + nb - 1), rng.choice('oxxxpr'))
                 if H.apply_op(athlib, c, op) == 'ok' and op[0] == 'bar': h = op[1]
         hist = accepted_ops(c)
         stats['prefixes'] += 1
